@@ -10,6 +10,12 @@ pub const TWO53: u64 = 1 << 53;
 /// A program making `n` pairs of unique-id() calls and some random() calls.
 /// Limits are embedded in the property names so that the oracle needs no side table.
 pub fn id_program(n: usize, limits: &[u64]) -> String {
+    id_program_ordered(n, limits, false)
+}
+
+/// `limit_first`: the very first generator draw of the compilation goes to a
+/// `random($limit)` call instead of a `random()` call.
+pub fn id_program_ordered(n: usize, limits: &[u64], limit_first: bool) -> String {
     let mut s = String::from("@use \"sass:math\";\n@use \"sass:string\";\n");
     if n > 0 {
         s.push_str(&format!(
@@ -18,8 +24,13 @@ pub fn id_program(n: usize, limits: &[u64]) -> String {
     }
     s.push_str("r {\n");
     for (k, l) in limits.iter().enumerate() {
-        s.push_str(&format!("  f{k}: math.floor(math.random());\n"));
-        s.push_str(&format!("  l{k}-{l}: math.random({l});\n"));
+        if limit_first {
+            s.push_str(&format!("  l{k}-{l}: math.random({l});\n"));
+            s.push_str(&format!("  f{k}: math.floor(math.random());\n"));
+        } else {
+            s.push_str(&format!("  f{k}: math.floor(math.random());\n"));
+            s.push_str(&format!("  l{k}-{l}: math.random({l});\n"));
+        }
         if k % 3 == 0 {
             s.push_str(&format!("  g{k}-{l}: random({l});\n"));
         }
@@ -146,4 +157,63 @@ pub fn check_output(
         }
     }
     fails
+}
+
+/// Generator seeds whose FIRST draw is extreme: the injected "unlucky draw".
+/// `zero` makes the first 64-bit output exactly 0 (algebraic, for the wyrand
+/// step of fastrand 2.x: state + C0 == 0; verified at run time and dropped if
+/// the generator changed); `low`/`high` are found by searching seeds through
+/// the public API for a first output in the lowest / highest 2^-20 of the range.
+pub struct ExtremeSeeds {
+    pub zero: Option<u64>,
+    pub low: Vec<u64>,
+    pub high: Vec<u64>,
+}
+
+pub fn extreme_seeds() -> &'static ExtremeSeeds {
+    static S: std::sync::OnceLock<ExtremeSeeds> = std::sync::OnceLock::new();
+    S.get_or_init(|| {
+        const WY_CONST_0: u64 = 0x2d35_8dcc_aa6c_78a5;
+        let z = 0u64.wrapping_sub(WY_CONST_0);
+        let mut r = fastrand::Rng::with_seed(z);
+        let zero = (r.u64(..) == 0).then_some(z);
+        let mut low = vec![];
+        let mut high = vec![];
+        let mut s = 1u64;
+        while (low.len() < 4 || high.len() < 4) && s < 50_000_000 {
+            let v = fastrand::Rng::with_seed(s).u64(..);
+            if v >> 44 == 0 && low.len() < 4 {
+                low.push(s);
+            }
+            if v >> 44 == (1 << 20) - 1 && high.len() < 4 {
+                high.push(s);
+            }
+            s += 1;
+        }
+        ExtremeSeeds { zero, low, high }
+    })
+}
+
+/// A generator seed for a run: mostly ordinary, sometimes an extreme one.
+pub fn draw_fastrand_seed(rng: &mut Rng, stats: &mut Stats) -> u64 {
+    let e = extreme_seeds();
+    match rng.below(8) {
+        0 => {
+            if let Some(z) = e.zero {
+                stats.inc("fired:rng_first_draw_zero");
+                return z;
+            }
+            stats.inc("probe:zero_seed_unavailable");
+            rng.next_u64()
+        }
+        1 if !e.low.is_empty() => {
+            stats.inc("fired:rng_first_draw_lowest");
+            *rng.pick(&e.low)
+        }
+        2 if !e.high.is_empty() => {
+            stats.inc("fired:rng_first_draw_highest");
+            *rng.pick(&e.high)
+        }
+        _ => rng.next_u64(),
+    }
 }
